@@ -254,3 +254,23 @@ Print Assumptions C11_alive_set_change_refuted.
 Example hard_write_repaired_finds_the_row :
   map s_id (target_group_hw xxh64 repaired ex_cfg (set_alive ex_group (seq 0 7)) (Some (EEq 0%N s_host [100%N]))) = [4%N].
 Proof. vm_compute. reflexivity. Qed.
+
+(* ------------------------------------------------------------------ stream destination with another shard key *)
+(* source cpu SHARDKEY host, stream GROUP BY host into a destination created WITH SHARDKEY dc (case 3 of routeAndCalculateStreamRows
+   looks at the source's key and the dimensions only): the result row is placed by hash("host=a") over the destination's shards,
+   the query dc='1' on the destination consults hash("dc=1") *)
+Definition ex_cfg_dst : cfg :=
+  {| c_mst := s_mem; c_tagkeys := [s_dc; s_host]; c_sk := [s_dc]; c_typ := Hash; c_dur := 3600000000000; c_groups := [ex_group]; c_mstidx := None |}.
+Definition ex_prow : point := {| p_tags := [(s_dc, [49%N]); (s_host, [97%N])]; p_time := 1699999200000000003; p_leaf := fun _ => false |}.
+Theorem C11_stream_reuse_other_key_refuted :
+  exists s, route_reuse xxh64 ex_cfg ex_cfg_dst ex_group ex_prow = Some s /\
+    wf_group ex_cfg_dst ex_group /\ wf_point ex_prow /\
+    eval_cond ex_cfg_dst (Some (EEq 0%N s_dc [49%N])) ex_prow = true /\
+    ~ In (s_id s) (map s_id (target_group xxh64 repaired ex_cfg_dst ex_group (Some (EEq 0%N s_dc [49%N])))).
+Proof.
+  destruct (route_reuse xxh64 ex_cfg ex_cfg_dst ex_group ex_prow) as [s|] eqn:E; [|vm_compute in E; discriminate].
+  exists s. split; [reflexivity|]. split; [unfold wf_group; simpl; apply incl_refl|].
+  split. { unfold wf_point. simpl. constructor; [intros [H|[]]; discriminate|constructor; [intros []|constructor]]. }
+  split; [vm_compute; reflexivity|]. vm_compute in E. inversion E; subst s. vm_compute. intros [H|[]]; discriminate.
+Qed.
+Print Assumptions C11_stream_reuse_other_key_refuted.
